@@ -99,7 +99,8 @@ def run(ctx):
         "io.Reader is a bytes.Reader over the whole input (EOF is the only read error); Go int is 64 bit",
         "time budget per operation 1.5 s + 2 us/byte, allocation budget per operation 64*len + 16 MiB (runtime/metrics heap allocs: a "
         "64 MiB request from a 24-byte box is an overalloc), "
-        "address space of harness and workers limited to %d KiB" % ULIMIT_KB,
+        "address space of harness and workers limited to %d KiB; a worker ends an operation at twice the allocation budget + 128 MiB or four times the time budget "
+        "(classified overalloc / hang by the parent, hang re-measured alone)" % ULIMIT_KB,
         "leaf decoder bodies are opaque in the container proofs (contract: no panic, reader invariant kept, cost <= bytes consumed + 1); "
         "14 exact-size-guard table prologues and the unguarded sidx subs pssh are composed with the container loops (C04TreeModel.v, C04TreeXModel.v); the other unguarded ones (sgpd ...) are modelled per box only",
     ]
